@@ -12,6 +12,11 @@ namespace Ops
 /-- the context of the constructors: what `Ellipsoid::named` accepts -/
 structure CtorEnv where
   ellpsKnown : Str → Bool
+  /-- `ctx.get_grid(name)`: the number of bands of the grid served under that name, `none` = NotFound -/
+  gridBands : Str → Option Nat := fun _ => none
+  /-- the error `get_grid` gives for a name it cannot serve: `NotFound` for a context with grid
+  access, `General` for `Minimal`, which has none -/
+  gridErr : Err := .general
 
 /-- `Op::plain`: parse the gamut; the `lat_n`/`lon_n` re-insertions are the identity because
 the implicit gamut already holds them -/
